@@ -130,6 +130,7 @@ type Opts struct {
 	Hist      []int
 	HistPaths int // number of leading paths that also get the truncation histories
 	Race      bool
+	Env       []string // extra environment of the run driver processes (e.g. GODEBUG=panicnil=1)
 	KeepOut   bool // read back generated text for failing programs
 	Log       func(string)
 }
@@ -832,7 +833,7 @@ func (p *Pipeline) runGood(good []*batch) error {
 				crumb := filepath.Join(p.SC.Dir, tag+".crumb")
 				bs, _ := json.Marshal(sh)
 				os.WriteFile(jobFile, bs, 0o644)
-				env := []string{"GOMAXPROCS=2"}
+				env := append([]string{"GOMAXPROCS=2"}, p.Opts.Env...)
 				if p.Opts.Race {
 					env = append(env, "GORACE=halt_on_error=0 log_path="+filepath.Join(p.SC.Dir, tag+".race"))
 				}
